@@ -11,7 +11,7 @@ EXTENDS Lifetime, Json, IOUtils, TLCExt
 Rec == ndJsonDeserialize(IOEnv.TRACE)
 
 VARIABLE l
-tvars == <<rt, gens, mods, hnd, obs, l>>
+tvars == <<rt, gens, mods, hnd, clo, obs, l>>
 
 Ev == Rec[l]
 IsEv(name) == l <= Len(Rec) /\ Ev.op = name /\ l' = l + 1
@@ -23,7 +23,8 @@ TraceInit == Init /\ l = 1
 
 TraceNext ==
   \/ IsEv("reset") /\ rt' = 0 /\ gens' = <<>> /\ mods' = <<>>
-                   /\ hnd' = [h \in Handles |-> 0] /\ obs' = NoRes
+                   /\ hnd' = [h \in Handles |-> 0] /\ clo' = [c \in Closures |-> 0]
+                   /\ obs' = NoRes
   \/ IsEv("build") /\ Ev.g = Len(gens) + 1 /\ BuildRuntime /\ LiveOk
   \/ IsEv("compile") /\ Ev.m = Len(mods) + 1 /\ Compile(Ev.v) /\ LiveOk
   \/ IsEv("get") /\ GetHandle(Ev.m, Ev.h) /\ LiveOk
@@ -33,6 +34,9 @@ TraceNext ==
   \/ IsEv("drop_pkg") /\ DropPkg(Ev.m) /\ LiveOk
   \/ IsEv("drop_rt") /\ DropRuntime /\ LiveOk
   \/ IsEv("move") /\ MoveToThread(Ev.h) /\ LiveOk /\ ResOk
+  \/ IsEv("into_func") /\ IntoFunc(Ev.h, Ev.c) /\ LiveOk
+  \/ IsEv("call_closure") /\ CallClosure(Ev.c) /\ LiveOk /\ ResOk
+  \/ IsEv("drop_closure") /\ DropClosure(Ev.c) /\ LiveOk
 
 TraceSpec == TraceInit /\ [][TraceNext]_tvars
 
